@@ -94,7 +94,28 @@ theorem barStep_ok {cfg : Cfg} {sc : Script} {row : Nat} {ts : Int} {st : St}
     simp only [] at h ⊢
     cases htp : (barParts cfg sc row ts st price).tp.2.2 with
     | some e => rw [htp] at h; cases h
-    | none => exact ⟨price, rfl, htp, rfl⟩
+    | none =>
+      rw [htp] at h
+      simp only [] at h ⊢
+      cases hnt : (barParts cfg sc row ts st price).nt.2.2 with
+      | false => rw [hnt] at h; simp at h
+      | true => exact ⟨price, rfl, htp, by simp⟩
+
+/-- a bar that ends normally: its `notify` loop came to an end -/
+theorem barStep_notify_done {cfg : Cfg} {sc : Script} {row : Nat} {ts : Int} {st : St} {price : Option Int}
+    (h : (barStep cfg sc row ts st).2.2 = none) (hp : priceAt cfg ts = some price) :
+    (barParts cfg sc row ts st price).nt.2.2 = true := by
+  unfold barStep at h
+  rw [hp] at h
+  simp only [] at h
+  cases htp : (barParts cfg sc row ts st price).tp.2.2 with
+  | some e => rw [htp] at h; cases h
+  | none =>
+    rw [htp] at h
+    simp only [] at h
+    cases hnt : (barParts cfg sc row ts st price).nt.2.2 with
+    | false => rw [hnt] at h; simp at h
+    | true => rfl
 
 
 /-- the order of the property: by bar, then by position in the fixed phase order of a bar -/
@@ -133,10 +154,14 @@ theorem segOK_cons {ts c lo hi e l} (h1 : e.ts = some ts) (h2 : e.phase = c) (h 
 
 theorem segOK_nil {ts lo hi} : SegOK ts lo hi [] := ⟨List.Pairwise.nil, by intro e he; cases he⟩
 
-theorem notifs_at (ts : Int) (cur : List Act) : AllAt ts 15 (cur.map (fun x => Ev.notify ts x.tag x.stamp x.m)) := by
-  intro e he
-  obtain ⟨x, _, rfl⟩ := List.mem_map.mp he
-  exact ⟨rfl, rfl⟩
+/-- the `notify` loop: the deliveries and whatever the hook does all happen at the bar's timestamp, in phase 15 -/
+theorem runNotify_at (sc : Script) (ts : Int) (row : Nat) : ∀ (fuel i : Nat) (st : St), AllAt ts 15 (runNotify sc ts row fuel i st).1
+  | 0, _, _ => AllAt.nil
+  | fuel + 1, i, st => by
+    unfold runNotify
+    split
+    · exact AllAt.nil
+    · exact AllAt.cons ⟨rfl, rfl⟩ (AllAt.append (runOps_at ts .notify _ _) (runNotify_at sc ts row fuel (i + 1) _))
 
 /-- the trace of a bar is in phase order, and all of it happens at the bar's timestamp -/
 theorem barTrace_sorted (cfg : Cfg) (sc : Script) (row : Nat) (ts : Int) (st : St) (price : Option Int) :
@@ -150,7 +175,7 @@ theorem barTrace_sorted (cfg : Cfg) (sc : Script) (row : Nat) (ts : Int) (st : S
   have hs2 : SegOK ts 10 10 (barParts cfg sc row ts st price).s2.1 := segOK_of_allAt (setUpdatedFrom_at cfg ts 0 _ _)
   have hu : SegOK ts 11 11 (barParts cfg sc row ts st price).u.1 := segOK_of_allAt (runUpdFrom_at sc ts row 0 _ _)
   have ha : SegOK ts 13 13 (barParts cfg sc row ts st price).a.1 := segOK_of_allAt (runOps_at ts .after _ _)
-  have hno := segOK_of_allAt (notifs_at ts (barParts cfg sc row ts st price).a.2.cur)
+  have hno : SegOK ts 15 15 (barParts cfg sc row ts st price).nt.1 := segOK_of_allAt (runNotify_at sc ts row _ _ _)
   have e1 := segOK_append hs1 (segOK_cons (c := 4) (e := .before ts row price) rfl rfl hb (by omega) (by omega)) (by omega) (by omega) (by omega)
   have e2 := segOK_append e1 hf (by omega) (by omega) (by omega)
   have e3 := segOK_append e2 ho (by omega) (by omega) (by omega)
